@@ -15,7 +15,7 @@ baseline cell = first seed of the window, canonical order, sequential):
   warm     n sequences (Walecki zig-zag paths and their reverses) in which EVERY ordered pair (m1, m2) of
            corpus modules occurs adjacently: m2 compiled right after m1 in one process.
   batch    the package through cythonize([...], nthreads=n) for EVERY permutation of the 4-module list
-           (24) x n in {0, 2} (thorough: {0, 2, 4}).
+           (24) with nthreads=2 plus 4 orders sequentially (quick); thorough: all 24 x n in {0, 2, 4}.
 Oracle: every generated file (.c, .h, _api.h) of every module is byte-identical to the baseline cell.
 """
 import os, sys, json, hashlib, shutil, itertools
@@ -29,7 +29,7 @@ TECHNIQUE = ('complete window of PYTHONHASHSEED values x all module orders / adj
 LEVEL_TEXT = ('A corpus aimed at ordered emission is compiled in fresh interpreter processes under every PYTHONHASHSEED of a '
               'window of 8 (64 thorough) values, alone in a cold process, directly after every other corpus module in a warm '
               'process (all ordered pairs adjacent), and as a 4-module package through cythonize in all 24 list orders with '
-              'nthreads 0 and 2 (4 thorough); all generated .c/.h/_api.h files must be byte-identical to the baseline cell.')
+              'nthreads 2 (thorough: 0, 2 and 4); all generated .c/.h/_api.h files must be byte-identical to the baseline cell.')
 LEVEL_NOTE = ('Hash seeds are covered as a window of K consecutive values (disjoint per VERIF_SEED), not all 2**32; dimensions are '
               'varied one at a time from the baseline cell (plus seed x package batch).  The self-compiled compiler (design bullet, '
               'thorough) is left out: building the compiler with itself takes longer than the tier budget.  Trusted: sha256.')
@@ -135,6 +135,8 @@ def run(ctx):
     nthreads = (0, 2) if ctx.quick else (0, 2, 4)
     for pi, perm in enumerate(itertools.permutations(pkg)):
         for nt in nthreads:
+            if ctx.quick and nt == 0 and pi not in (0, 9, 16, 23):
+                continue        # quick: sequential cythonize only for 4 of the 24 orders (all 24 run with nthreads=2)
             cells.append(('batch%d_%d' % (pi, nt), 'batch', '%s nthreads=%d' % ('>'.join(os.path.basename(p) for p in perm), nt),
                           {'batch': list(perm), 'nthreads': nt}, base_seed))
     if not ctx.quick:
